@@ -21,9 +21,10 @@ VARIABLES l,      \* next line to judge
           cre,    \* ids created successfully, as a sequence (an id created twice = uuid conflict, exempt)
           seen,   \* [replica -> ids ever observed present there]
           skewed, \* some write of this history was stamped earlier than a change its replica had already received
+          trimmed,\* a purge_tombstones (RUV trim) succeeded in this history
           revoked,\* <<entry, session>> pairs some replica has shown as revoked in this history
           dead    \* [replica -> ids observed deleted (present and not live, or gone after being present)]
-vars == <<l, del, rev, cre, seen, skewed, revoked, dead>>
+vars == <<l, del, rev, cre, seen, skewed, trimmed, revoked, dead>>
 
 \* ------------------------------------------------------------------ projection helpers
 Get(f, r) == IF r \in DOMAIN f THEN f[r] ELSE {}
@@ -71,6 +72,7 @@ Del2 == IF IsInit(l) THEN {} ELSE del \cup (IF Rec[l].op = "delete" /\ OkRes(l) 
 Rev2 == IF IsInit(l) THEN {} ELSE rev \cup (IF Rec[l].op = "revive" /\ OkRes(l) THEN {IdOf(l)} ELSE {})
 Cre2 == IF IsInit(l) THEN <<>> ELSE IF Rec[l].op = "create" /\ OkRes(l) THEN Append(cre, IdOf(l)) ELSE cre
 Skew2 == IF IsInit(l) THEN FALSE ELSE skewed \/ ("skew" \in DOMAIN Rec[l] /\ Rec[l].skew)
+Trim2 == IF IsInit(l) THEN FALSE ELSE trimmed \/ (Rec[l].op \in {"purge_ts", "trim"} /\ OkRes(l))
 Multi(c) == {c[k] : k \in {j \in 1..Len(c) : \E m \in 1..Len(c) : m # j /\ c[m] = c[j]}}
 Tracked == Del2 \ (Rev2 \cup Multi(Cre2))      \* deletions the property speaks about unconditionally
 
@@ -110,9 +112,10 @@ RevocationSticky(i) == IsQuiescentMesh(i) =>
       (p[1] \in DOMAIN Ents(i, r) /\ p[2] \in DOMAIN Ents(i, r)[p[1]].ses) => Ents(i, r)[p[1]].ses[p[2]].st = 2
 
 \* ------------------------------------------------------------------ C09
-NoResurrectionStep(i) ==
-  /\ \A r \in Reps(i) : \A x \in (Get(dead, r) \cap Tracked) : ~LiveAt(i, r, x)
-  /\ IsQuiescentMesh(i) => \A r \in Reps(i) : \A x \in Tracked : ~LiveAt(i, r, x)
+\* (a) on a replica that has shown the entry deleted, it never becomes live again
+NoResurrectionStep(i) == \A r \in Reps(i) : \A x \in (Get(dead, r) \cap Tracked) : ~LiveAt(i, r, x)
+\* (b) once every pair reports nothing left to supply, a deleted entry is live nowhere
+NoLiveDeletedAtQuiescence(i) == IsQuiescentMesh(i) => \A r \in Reps(i) : \A x \in Tracked : ~LiveAt(i, r, x)
 
 \* a tombstone is terminal: no incremental exchange or local write turns it into anything else (a refresh replaces
 \* the consumer's whole database with the supplier's and is exempt)
@@ -133,12 +136,12 @@ RangeDecision(i) ==
        /\ (exp = "refresh") <=> (Rec[i].res.sup = "refresh_required")
 
 \* ------------------------------------------------------------------ stepping
-Init == l = 1 /\ del = {} /\ rev = {} /\ cre = <<>> /\ seen = <<>> /\ dead = <<>> /\ skewed = FALSE /\ revoked = {}
+Init == l = 1 /\ del = {} /\ rev = {} /\ cre = <<>> /\ seen = <<>> /\ dead = <<>> /\ skewed = FALSE /\ revoked = {} /\ trimmed = FALSE
 
 Next ==
   /\ l <= Len(Rec)
   /\ l' = l + 1
-  /\ del' = Del2 /\ rev' = Rev2 /\ cre' = Cre2 /\ skewed' = Skew2 /\ revoked' = Revoked2
+  /\ del' = Del2 /\ rev' = Rev2 /\ cre' = Cre2 /\ skewed' = Skew2 /\ revoked' = Revoked2 /\ trimmed' = Trim2
   /\ seen' = [r \in Reps(l) |-> (IF IsInit(l) THEN {} ELSE Get(seen, r)) \cup DOMAIN Ents(l, r)]
   /\ dead' = [r \in Reps(l) |->
                 (IF IsInit(l) THEN {} ELSE Get(dead, r))
@@ -153,6 +156,8 @@ Judge == l <= Len(Rec) =>
   /\ (Q(l, ConvergedSes(l))     \/ PrintT(<<"L1FAIL", "C08", l, SesSig(l)>>))
   /\ (Q(l, ConvergedDerived(l)) \/ PrintT(<<"L1FAIL", "C08", l, "recycled-entry-stale-memberof">>))
   /\ (NoResurrectionStep(l) \/ PrintT(<<"L1FAIL", "C09", l, "resurrected">>))
+  /\ (NoLiveDeletedAtQuiescence(l) \/ PrintT(<<"L1FAIL", "C09", l,
+          IF Trim2 THEN "deletion-never-delivered-after-trim" ELSE "deleted-entry-live-at-quiescence">>))
   /\ (TombstoneTerminal(l)  \/ PrintT(<<"L1FAIL", "C09", l, "tombstone-changed">>))
   /\ (RefusalInert(l)       \/ PrintT(<<"L1FAIL", "C09", l, "refusal-changed-consumer">>))
   /\ (RangeDecision(l)      \/ PrintT(<<"L1FAIL", "C09", l, "range-decision">>))
